@@ -222,6 +222,15 @@ def eval_dyad_adverb_iterate(f, a, b):
     return b
 
 
+def _has_zero_divisor(a):
+    # a%0 is :undefined for numbers, but divide.reduce / divide.accumulate give inf:
+    # a flat array with a zero among its divisors a2..aN is folded with the verb itself
+    try:
+        return a.ndim == 1 and bool((a[1:] == 0).any())
+    except Exception:
+        return False
+
+
 def eval_adverb_over(f, a, op, backend):
     """
         f/a                                                       [Over]
@@ -251,7 +260,7 @@ def eval_adverb_over(f, a, op, backend):
             return np_backend.subtract.reduce(a)
         elif safe_eq(op.a, '*') and hasattr(np_backend.multiply,'reduce'):
             return np_backend.multiply.reduce(a)
-        elif safe_eq(op.a, '%') and hasattr(np_backend.divide,'reduce'):
+        elif safe_eq(op.a, '%') and hasattr(np_backend.divide,'reduce') and not _has_zero_divisor(a):
             return np_backend.divide.reduce(a)
         elif safe_eq(op.a, '&') and a.ndim == 1 and a.dtype != 'O':
             return np_backend.min(a)
@@ -352,7 +361,7 @@ def eval_adverb_scan_over(f, a, op, backend):
             return np_backend.subtract.accumulate(a)
         elif safe_eq(op.a, '*') and hasattr(np_backend.multiply, 'accumulate'):
             return np_backend.multiply.accumulate(a)
-        elif safe_eq(op.a, '%') and hasattr(np_backend.divide, 'accumulate'):
+        elif safe_eq(op.a, '%') and hasattr(np_backend.divide, 'accumulate') and not _has_zero_divisor(a):
             return np_backend.divide.accumulate(a)
     r = list(itertools.accumulate(a, f))
     return backend.kg_asarray(r)
